@@ -117,7 +117,7 @@ fn refine(d: &crate::engine_b::Diag, spec: &crate::spec::GrammarSpec, cfg: &BCon
     if d.code == "E0255" && name == "C" && cfg.loc_info && spec.rules.iter().any(|r| r.name == "C") {
         return "|rule-named-C-with-loc-info";
     }
-    if d.code == "E0308" && cfg.glr && d.text.contains("(context") && d.text.contains("None") {
+    if d.code == "E0308" && cfg.glr && d.text.contains("(context") && d.text.contains("None") && d.label.contains("found `Option<") {
         return "|right-nulled-arm-passes-None";
     }
     ""
@@ -164,9 +164,16 @@ pub fn run(tier: Tier, seed: u64, replay: Option<&Path>) -> RunResult {
             Err(_) => return RunResult { exit: 2, lines: vec![] },
         }
     } else {
-        // regress files first (their own batch)
+        // regress files and the saved inputs of the known findings first (their own batch): a
+        // regress case must compile; a known case reproduces its listed signature (KNOWN-FINDING
+        // line) or, once repaired upstream, simply compiles
         let mut reg: Vec<Case> = vec![];
-        if let Ok(rd) = std::fs::read_dir(crate::runner::verif_root().join("regress")) {
+        for sub in ["regress", "known"] {
+            let rd = match std::fs::read_dir(crate::runner::verif_root().join(sub)) {
+                Ok(rd) => rd,
+                Err(_) => continue,
+            };
+            {
             let mut files: Vec<_> = rd.flatten().map(|e| e.path()).filter(|p| p.file_name().map(|n| n.to_string_lossy().starts_with("C11-")).unwrap_or(false)).collect();
             files.sort();
             for f in files {
@@ -175,6 +182,7 @@ pub fn run(tier: Tier, seed: u64, replay: Option<&Path>) -> RunResult {
                         reg.push(c);
                     }
                 }
+            }
             }
         }
         for b in 0..batches {
